@@ -7,7 +7,6 @@ use crate::dec::{viol, Faults, Viol};
 use crate::ops::*;
 use crate::rng::Digest;
 use crate::sink::*;
-use std::panic::{catch_unwind, AssertUnwindSafe};
 
 #[derive(Clone, Copy, Debug, PartialEq, Eq)]
 pub enum MemFn {
@@ -91,7 +90,7 @@ fn one_call(func: MemFn, src: &[u16], offer: &Offer, cap: usize, fill: u8, stale
     let g16 = Guard16::from(src, offer.src_off as usize);
     let bytes: Vec<u8> = src.iter().map(|&u| u as u8).collect();
     let g8 = Guard8::from(&bytes, offer.src_off as usize);
-    let r = catch_unwind(AssertUnwindSafe(|| match func {
+    let r = crate::sink::guard((|| match func {
         MemFn::Utf16ToUtf8Partial => encoding_rs::mem::convert_utf16_to_utf8_partial(g16.slice(), g.slice_mut()),
         MemFn::Utf16ToStrPartial => encoding_rs::mem::convert_utf16_to_str_partial(g16.slice(), std::str::from_utf8_mut(g.slice_mut()).expect("harness filler")),
         MemFn::Latin1ToUtf8Partial => encoding_rs::mem::convert_latin1_to_utf8_partial(g8.slice(), g.slice_mut()),
